@@ -20,6 +20,10 @@ from typing import Optional
 COIN_MODES = ("uniform", "first", "second", "alternate", "mostly_first", "mostly_second")
 SHUFFLE_MODES = ("uniform", "identity", "reverse", "rotate")
 SAMPLE_MODES = ("uniform", "identity", "reverse", "alternate", "blocks")
+# outcomes of random.random() / getrandbits(): every value the real functions can
+# return is fair game ("every outcome of the random choices, not just the likely ones")
+FLOAT_MODES = ("uniform", "uniform", "zero", "almost_one", "tiny", "extremes", "mostly_zero")
+BITS_MODES = ("uniform", "uniform", "zeros", "ones", "alternate")
 
 
 def draw_profile(rng: _random.Random) -> Dict[str, Any]:
@@ -34,6 +38,8 @@ def draw_profile(rng: _random.Random) -> Dict[str, Any]:
                 "coin": rng.choice(COIN_MODES),
                 "shuffle": rng.choice(SHUFFLE_MODES),
                 "sample": rng.choice(SAMPLE_MODES),
+                "float": rng.choice(FLOAT_MODES),
+                "bits": rng.choice(BITS_MODES),
             }
         ph["len"] = rng.choice((1, 2, 3, 5, 8, 13, 30, 100))
         phases.append(ph)
@@ -53,6 +59,7 @@ class SimRandom(_random.Random):
         feed: Optional[List[list]] = None,
     ) -> None:
         super().__init__(seed)
+        self._u = _random.Random(seed ^ 0x5DEECE66D)  # internal uniform source, never biased
         self.profile = profile or UNIFORM_PROFILE
         self.feed = feed
         self.log: List[list] = []
@@ -65,7 +72,7 @@ class SimRandom(_random.Random):
     # -- phases ---------------------------------------------------------
     def _mode(self, kind: str) -> str:
         phases = self.profile["phases"]
-        mode = phases[self._phase][kind]
+        mode = phases[self._phase].get(kind, "uniform")
         self.draws += 1
         if len(phases) > 1:
             self._phase_left -= 1
@@ -99,11 +106,11 @@ class SimRandom(_random.Random):
             idx = self._alt % n
             self._alt += 1
         elif mode == "mostly_first":
-            idx = 0 if super().random() < 0.85 else self._randbelow(n)
+            idx = 0 if self._u.random() < 0.85 else self._u.randrange(n)
         elif mode == "mostly_second":
-            idx = n - 1 if super().random() < 0.85 else self._randbelow(n)
+            idx = n - 1 if self._u.random() < 0.85 else self._u.randrange(n)
         else:
-            idx = self._randbelow(n)
+            idx = self._u.randrange(n)
         self.log.append(["choice", n, idx])
         return idx
 
@@ -134,12 +141,12 @@ class SimRandom(_random.Random):
         elif mode == "reverse":
             perm = list(range(n - 1, -1, -1))
         elif mode == "rotate":
-            r = 1 + self._randbelow(n - 1)
+            r = 1 + self._u.randrange(n - 1)
             perm = list(range(r, n)) + list(range(r))
         elif mode == "alternate":
             # strict alternation between the two halves of the population
             # (for the library's queue/grandchildren interleave: q,g,q,g,...)
-            cut = self._randbelow(n + 1)
+            cut = self._u.randrange(n + 1)
             a, b = list(range(cut)), list(range(cut, n))
             perm = []
             while a or b:
@@ -150,11 +157,11 @@ class SimRandom(_random.Random):
         elif mode == "blocks":
             # random cut points, blocks emitted in reverse
             perm = list(range(n))
-            cut = self._randbelow(n + 1)
+            cut = self._u.randrange(n + 1)
             perm = perm[cut:] + perm[:cut]
         else:
             perm = list(range(n))
-            super().shuffle(perm)
+            self._u.shuffle(perm)
         self.log.append([kind, n, perm])
         return perm
 
@@ -175,16 +182,50 @@ class SimRandom(_random.Random):
         perm = self._perm("sample", n, "sample")
         return [population[i] for i in perm[:k]]
 
-    # everything else (random, randrange, randint, getrandbits, choices,
-    # uniform, ...) is the seeded base class: deterministic per run, recorded
-    # only as a count.
+    # the low-level sources: biased and recorded too, so that an implementation
+    # that draws with random.random() / getrandbits() is steered as well
     def random(self) -> float:  # type: ignore[override]
-        self.draws += 1
-        return super().random()
+        fed = self._from_feed("random", 0)
+        mode = self._mode("float")
+        if isinstance(fed, float) and 0.0 <= fed < 1.0:
+            v = fed
+        elif mode == "zero":
+            v = 0.0
+        elif mode == "almost_one":
+            v = 1.0 - 2.0**-53
+        elif mode == "tiny":
+            v = self._u.random() * 1e-300
+        elif mode == "extremes":
+            self._alt += 1
+            v = 0.0 if self._alt % 2 else 1.0 - 2.0**-53
+        elif mode == "mostly_zero":
+            v = 0.0 if self._u.random() < 0.7 else self._u.random()
+        else:
+            v = self._u.random()
+        self.log.append(["random", 0, v])
+        return v
 
     def getrandbits(self, k: int) -> int:  # type: ignore[override]
-        self.draws += 1
-        return super().getrandbits(k)
+        fed = self._from_feed("bits", k)
+        mode = self._mode("bits")
+        if isinstance(fed, int) and 0 <= fed < (1 << k):
+            v = fed
+        elif mode == "zeros" or k == 0:
+            v = 0
+        elif mode == "ones":
+            v = (1 << k) - 1
+        elif mode == "alternate":
+            self._alt += 1
+            v = 0 if self._alt % 2 else (1 << k) - 1
+        else:
+            v = self._u.getrandbits(k)
+        self.log.append(["bits", k, v])
+        return v
+
+    def _randbelow(self, n: int) -> int:  # type: ignore[override]
+        # used by base-class methods that are not overridden (choices, ...): a
+        # recorded, biased index; never a rejection loop over biased bits
+        return self._pick_index(n)
 
 
 _PATCHED: Dict[str, Any] = {}
